@@ -700,66 +700,102 @@ def vformat (esc : Text → Text) (pr : Char → Bool) (tmpl : Text) (args : Lis
   | some (.error e) => some (.error e)
   | some (.ok items) => some (renderFormat esc pr args kw none items)
 
-/-- `%`-template items: `%%` | `%[-][width][.prec]s` | literal -/
+/-- the conversions of `%` that accept a `str` argument (`HTML.__mod__` / `ANSI.__mod__` hand
+    `str.__mod__` a tuple of ESCAPED STRINGS, whatever the caller passed) -/
+inductive PConv | s | r | a | c
+deriving Repr, DecidableEq
+
+/-- `%[flags][width][.prec][hlL](s|r|a|c)`; of the flags only `-` has an effect on these conversions -/
 structure PSpec where
   leftAdj : Bool := false
   width : Nat := 0
   prec : Option Nat := none
+  conv : PConv := .s
 deriving Repr, DecidableEq
 
+/-- `%`-template items.  The last three end the scan: `str.__mod__` raises when it reaches them.
+    * `typeErr`: a numeric conversion (`%d %i %u %o %x %X %e %E %f %F %g %G`: "a real number is
+      required, not str"), a `*` width / precision ("* wants int"), a mapping key `%(name)…`
+      ("format requires a mapping") — TypeError with or without an argument left;
+    * `badChar`: any other conversion character (incl. `%` after flags): the argument is fetched
+      first (TypeError if none is left), then ValueError "unsupported format character";
+    * `incomplete`: the template ends inside a conversion — ValueError "incomplete format". -/
 inductive PItem
   | lit (t : Text)
   | hole (spec : PSpec)
+  | typeErr
+  | badChar
+  | incomplete
 deriving Repr, DecidableEq
 
 def pushPLit (c : Char) : List PItem → List PItem
   | .lit t :: rest => .lit (c :: t) :: rest
   | items => .lit [c] :: items
 
-/-- after `%[-]`: `[width][.prec]s`; returns the spec and the rest -/
-def scanPSpecBody (la : Bool) (t : Text) : Option (PSpec × Text) :=
-  let w := (spanDigits t).1
-  let r := (spanDigits t).2
-  if w.head? = some '0' then none else
-  let width := digitsToNat w
-  match r with
-  | 's' :: r1 => some ({ leftAdj := la, width, prec := none }, r1)
-  | '.' :: r1 =>
-    match (spanDigits r1).2 with
-    | 's' :: r3 =>
-      some ({ leftAdj := la, width, prec := some (digitsToNat (spanDigits r1).1) }, r3)
-    | _ => none
-  | _ => none
+def isPFlag (c : Char) : Bool := c == '-' || c == '+' || c == ' ' || c == '#' || c == '0'
 
-/-- after `%`: `[-][width][.prec]s` -/
-def scanPSpec : Text → Option (PSpec × Text)
-  | '-' :: r => scanPSpecBody true r
-  | t => scanPSpecBody false t
+/-- leading flag characters and the rest -/
+def spanFlags : Text → Text × Text
+  | [] => ([], [])
+  | c :: cs => if isPFlag c then ((c :: (spanFlags cs).1), (spanFlags cs).2) else ([], c :: cs)
 
-/-- the template of `str.__mod__` on the sub-grammar literal | `%%` | `%[-][width][.prec]s`;
-    `none` = not modelled.  `fuel` bounds the number of iterations. -/
-def scanPercentGo : Nat → Text → Option (Except Err (List PItem))
-  | 0, _ => none
-  | _ + 1, [] => some (.ok [])
-  | fuel + 1, '%' :: '%' :: rest =>
-    match scanPercentGo fuel rest with
-    | some (.ok items) => some (.ok (pushPLit '%' items))
-    | r => r
+def isNumConv (c : Char) : Bool :=
+  c == 'd' || c == 'i' || c == 'u' || c == 'o' || c == 'x' || c == 'X' || c == 'e' || c == 'E' ||
+  c == 'f' || c == 'F' || c == 'g' || c == 'G'
+
+/-- what one conversion is, and the rest of the template after it (`none` for the three items that
+    end the scan) -/
+inductive PScan
+  | item (it : PItem) (rest : Text)
+  | stop (it : PItem)
+deriving Repr, DecidableEq
+
+/-- the conversion character (after flags, width, precision and an optional length modifier) -/
+def scanPConv (la : Bool) (width : Nat) (prec : Option Nat) : Text → PScan
+  | [] => .stop .incomplete
+  | c :: r =>
+    if c = 's' then .item (.hole { leftAdj := la, width, prec, conv := .s }) r
+    else if c = 'r' then .item (.hole { leftAdj := la, width, prec, conv := .r }) r
+    else if c = 'a' then .item (.hole { leftAdj := la, width, prec, conv := .a }) r
+    else if c = 'c' then .item (.hole { leftAdj := la, width, prec := none, conv := .c }) r
+    else if isNumConv c then .stop .typeErr
+    else .stop .badChar
+
+/-- an optional length modifier `h` / `l` / `L` -/
+def skipLenMod : Text → Text
+  | c :: r => if c = 'h' ∨ c = 'l' ∨ c = 'L' then r else c :: r
+  | [] => []
+
+/-- after the width: `[.prec][hlL]conv` -/
+def scanPPrec (la : Bool) (width : Nat) : Text → PScan
+  | '.' :: '*' :: _ => .stop .typeErr
+  | '.' :: r => scanPConv la width (some (digitsToNat (spanDigits r).1)) (skipLenMod (spanDigits r).2)
+  | t => scanPConv la width none (skipLenMod t)
+
+/-- after `%` (not `%%`): `[(key)][flags][width | *]…` -/
+def scanPSpec (t : Text) : PScan :=
+  match t with
+  | '(' :: _ => .stop .typeErr
+  | _ =>
+    let fl := (spanFlags t).1
+    match (spanFlags t).2 with
+    | '*' :: _ => .stop .typeErr
+    | r => scanPPrec (fl.contains '-') (digitsToNat (spanDigits r).1) (spanDigits r).2
+
+/-- the template of `str.__mod__`; `fuel` bounds the number of iterations -/
+def scanPercentGo : Nat → Text → List PItem
+  | 0, _ => []
+  | _ + 1, [] => []
+  | fuel + 1, '%' :: '%' :: rest => pushPLit '%' (scanPercentGo fuel rest)
   | fuel + 1, '%' :: rest =>
     match scanPSpec rest with
-    | none => none
-    | some (s, r) =>
-      match scanPercentGo fuel r with
-      | some (.ok items) => some (.ok (.hole s :: items))
-      | x => x
-  | fuel + 1, c :: rest =>
-    match scanPercentGo fuel rest with
-    | some (.ok items) => some (.ok (pushPLit c items))
-    | r => r
+    | .stop it => [it]
+    | .item it r => it :: scanPercentGo fuel r
+  | fuel + 1, c :: rest => pushPLit c (scanPercentGo fuel rest)
 
-def scanPercent (t : Text) : Option (Except Err (List PItem)) := scanPercentGo (t.length + 1) t
+def scanPercent (t : Text) : Option (Except Err (List PItem)) := some (.ok (scanPercentGo (t.length + 1) t))
 
-/-- `'%[-][w][.p]s' % v` -/
+/-- `'%[-][w][.p]s' % v` (also the padding / truncation of `%r %a %c`) -/
 def pfmtStr (v : Text) (s : PSpec) : Text :=
   let v := match s.prec with
     | some p => v.take p
@@ -767,25 +803,44 @@ def pfmtStr (v : Text) (s : PSpec) : Text :=
   let pad := List.replicate (s.width - v.length) ' '
   if s.leftAdj then v ++ pad else pad ++ v
 
-/-- `template % args` for a tuple of (already escaped) strings;
+/-- the text a conversion makes of its (string) argument; `%c` wants exactly one character -/
+def convArg (pr : Char → Bool) (c : PConv) (e : Text) : Except Err Text :=
+  match c with
+  | .s => .ok e
+  | .r => .ok (pyRepr pr e)
+  | .a => .ok (asciiEscape (pyRepr pr e))
+  | .c => if e.length = 1 then .ok e else .error .type
+
+/-- `template % args` for a tuple of (already escaped) strings, left to right; the first error wins;
     TypeError for too few / too many arguments -/
-def renderPercent : List Text → List PItem → Except Err Text
+def renderPercent (pr : Char → Bool) : List Text → List PItem → Except Err Text
   | [], [] => .ok []
   | _ :: _, [] => .error .type
-  | args, .lit t :: rest => do
-    let r ← renderPercent args rest
-    pure (t ++ r)
+  | args, .lit t :: rest =>
+    match renderPercent pr args rest with
+    | .ok r => .ok (t ++ r)
+    | .error e => .error e
+  | _, .typeErr :: _ => .error .type
+  | [], .badChar :: _ => .error .type
+  | _ :: _, .badChar :: _ => .error .value
+  | _, .incomplete :: _ => .error .value
   | [], .hole _ :: _ => .error .type
-  | v :: args, .hole s :: rest => do
-    let r ← renderPercent args rest
-    pure (pfmtStr v s ++ r)
+  | v :: args, .hole s :: rest =>
+    match convArg pr s.conv v with
+    | .error e => .error e
+    | .ok t =>
+      match renderPercent pr args rest with
+      | .ok r => .ok (pfmtStr t s ++ r)
+      | .error e => .error e
 
-/-- `self.value % tuple(esc(i) for i in value)`; both escape functions start with `str(i)` -/
-def pformat (esc : Text → Text) (tmpl : Text) (args : List Val) : Option (Except Err Text) :=
+/-- `self.value % tuple(esc(i) for i in value)`; both escape functions start with `str(i)`, so every
+    component — number, object, string — reaches `%` as an escaped string -/
+def pformat (esc : Text → Text) (pr : Char → Bool) (tmpl : Text) (args : List Val) :
+    Option (Except Err Text) :=
   match scanPercent tmpl with
   | none => none
   | some (.error e) => some (.error e)
-  | some (.ok items) => some (renderPercent (args.map fun v => esc v.s) items)
+  | some (.ok items) => some (renderPercent pr (args.map fun v => esc v.s) items)
 
 /-- `ANSI(tmpl).format(*args, **kw).__pt_formatted_text__()` -/
 def ansiFormat (tb : Tables) (pr : Char → Bool) (tmpl : Text) (args : List Val)
@@ -793,7 +848,8 @@ def ansiFormat (tb : Tables) (pr : Char → Bool) (tmpl : Text) (args : List Val
   (vformat ansiEscape pr tmpl args kw).map fun r => r.map (ansi tb)
 
 /-- `(ANSI(tmpl) % args).__pt_formatted_text__()` -/
-def ansiMod (tb : Tables) (tmpl : Text) (args : List Val) : Option (Except Err Frags) :=
-  (pformat ansiEscape tmpl args).map fun r => r.map (ansi tb)
+def ansiMod (tb : Tables) (pr : Char → Bool) (tmpl : Text) (args : List Val) :
+    Option (Except Err Frags) :=
+  (pformat ansiEscape pr tmpl args).map fun r => r.map (ansi tb)
 
 end Ptk.C18
